@@ -70,6 +70,9 @@ pub enum AdState {
     Held,
     /// adapter alive, owned by a task
     InTask(Id),
+    /// adapter alive, owned by an inserted source that drops it from inside one of its own
+    /// register / reregister / unregister calls (the poller is borrowed there)
+    Given(Id),
     Dropped,
     IntoInner,
     /// adapt_io failed
@@ -107,8 +110,8 @@ pub fn pattern(pos: u64) -> u8 {
     (pos % 251) as u8
 }
 
-fn alive(s: AdState) -> bool {
-    matches!(s, AdState::Held | AdState::InTask(_))
+pub fn alive(s: AdState) -> bool {
+    matches!(s, AdState::Held | AdState::InTask(_) | AdState::Given(_))
 }
 
 pub fn adapt_io(sim: &Sim, id: Id, fd: FdSpec, blocking: bool) {
@@ -283,6 +286,51 @@ pub fn release(sim: &Sim, id: Id, into_inner: bool) {
     });
     if r.is_some() {
         after_release(sim, id, if into_inner { "into_inner" } else { "drop" });
+    }
+}
+
+/// Hand a held adapter to an inserted source; the source drops it from inside its next
+/// register (when = 2) / reregister (1) / unregister (0) call.
+pub fn give_to(sim: &Sim, id: Id, src: Id, when: u8) {
+    let mut st = sim.st.borrow_mut();
+    let Some(sh) = st.srcs.get(&src).filter(|s| s.inserted && !matches!(s.k, K::Failed)).map(|s| s.sh.clone()) else { return };
+    let Some(m) = st.adapters.get_mut(&id) else { return };
+    if m.state != AdState::Held || m.indeterminate {
+        return;
+    }
+    let Some(a) = m.adapter.take() else { return };
+    m.state = AdState::Given(src);
+    drop(st);
+    sh.victims.borrow_mut().push((when % 3, id, Box::new(a)));
+    sim.probe("adapter_given_to_source");
+}
+
+/// Called by the wrapper right after it dropped an adapter it had been given.
+pub fn dropped_inside(id: Id, how: &'static str) {
+    let Some(sim) = try_cur() else { return };
+    {
+        let Ok(mut st) = sim.st.try_borrow_mut() else { return };
+        let Some(m) = st.adapters.get_mut(&id) else { return };
+        if !matches!(m.state, AdState::Given(_)) {
+            return;
+        }
+        m.state = AdState::Dropped;
+        st.live_adapters = st.live_adapters.saturating_sub(1);
+    }
+    sim.probe("adapter_dropped_inside_registration_call");
+    after_release(&sim, id, how);
+}
+
+/// End of the run: the program takes back what it lent (an adapter is a strong handle on the
+/// loop; one parked inside a source of that loop would be a reference cycle).
+pub fn take_back_given(sim: &Sim) {
+    let shs: Vec<Rc<crate::wrap::WrapShared>> = sim.st.borrow().srcs.values().map(|s| s.sh.clone()).collect();
+    for sh in shs {
+        let v: Vec<_> = std::mem::take(&mut *sh.victims.borrow_mut());
+        for (_, id, b) in v {
+            drop(b);
+            dropped_inside(id, "drop");
+        }
     }
 }
 
